@@ -67,6 +67,10 @@ mod types;
 
 pub(crate) mod handle;
 
+#[cfg(litep2p_verif)]
+#[path = "../../verif/c05.rs"]
+pub(crate) mod verif_c05;
+
 // TODO: https://github.com/paritytech/litep2p/issues/268 Periodically clean up idle peers.
 // TODO: https://github.com/paritytech/litep2p/issues/344 add lots of documentation
 
